@@ -18,6 +18,8 @@ The walk in get_paths is left only when the current level is empty (never at a f
 Hashing: hash_leaf = hash([0x00, leaf]), hash_nodes = hash([0x01, left, right]), and MerkleTree::hash feeds every input slice whole and in order into one
 digest under self.algorithm, truncated to hash_len() (a proof binds only the bytes the leaf hash covers).
 Completes: the panic obligations of C08 that lie inside src/merkle.rs (index, arithmetic, capacity) hold for every sequence of batches the server feeds a reused tree.
+Issued position: the server issues INDX = position in Responder.requests and PATH = get_paths(that position); the queue changes only together with the tree
+(a push beside a push_leaf, a clear beside the tree's reset, no dedup / retain / remove / sort / truncate, never reassigned), so position i is leaf i.
 """
 NOT_DECIDED = "completeness for each of the 255 batch sizes and binding itself (collision resistance); the relational invariant level length = 2 x node_count"
 TRUSTED = ["Vec indexing / slice::chunks semantics", "ring digest"]
